@@ -1046,6 +1046,18 @@ func callKeyOf(cc *ssa.CallCommon) string {
 		if fv, ok := v.X.(*ssa.FreeVar); ok {
 			return "dyn:" + fv.Name()
 		}
+		// a function value held in a struct field (x.callback(...)) is named after the field
+		if fa, ok := v.X.(*ssa.FieldAddr); ok {
+			if pt, ok := fa.X.Type().Underlying().(*types.Pointer); ok {
+				if st, ok := pt.Elem().Underlying().(*types.Struct); ok && fa.Field < st.NumFields() {
+					return "dyn:" + st.Field(fa.Field).Name()
+				}
+			}
+		}
+	case *ssa.Field:
+		if st, ok := v.X.Type().Underlying().(*types.Struct); ok && v.Field < st.NumFields() {
+			return "dyn:" + st.Field(v.Field).Name()
+		}
 	}
 	// a function value held in a named local (e.g. the element variable of a range loop)
 	if refs := cc.Value.Referrers(); refs != nil {
